@@ -314,6 +314,7 @@ class BodyPartReader:
         self._b64_carry = b""
         self._unread: deque[bytes] = deque()
         self._prev_chunk: bytes | None = None
+        self._prev_line_crlf = True  # the part starts right after a CRLF
         self._content_eof = 0
         self._cache: dict[str, Any] = {}
         self._max_decompress_size = max_decompress_size
@@ -493,7 +494,12 @@ class BodyPartReader:
         else:
             line = await self._content.readline()
 
-        if line.startswith(self._boundary):
+        # A delimiter is CRLF "--" boundary (RFC 2046): a line that merely
+        # follows a bare LF is content, as it is for read() and read_chunk().
+        after_crlf = self._prev_line_crlf
+        self._prev_line_crlf = line.endswith(b"\r\n")
+
+        if after_crlf and line.startswith(self._boundary):
             # the very last boundary may not come with \r\n,
             # so set single rules for everyone
             sline = line.rstrip(b"\r\n")
@@ -506,7 +512,7 @@ class BodyPartReader:
                 return b""
         else:
             next_line = await self._content.readline()
-            if next_line.startswith(self._boundary):
+            if self._prev_line_crlf and next_line.startswith(self._boundary):
                 line = line[:-2]  # strip CRLF but only once
             self._unread.append(next_line)
 
